@@ -315,20 +315,24 @@ blob `SerializeTicket` produced and proves that the whole order bucket reads bac
 ticket (clientdb `SubmitOrder` / `updateOrder`: keys `order`, `order-min-units-match`, `order-tlv`,
 `order-tier`), load it (`GetOrder`): the bid comes back with exactly that blob, and the blob
 deserialises to the same ticket. -/
-theorem C15_embedded_in_bid_roundtrip (cfg : Cfg) (hm : 1000 ≤ cfg.maxAlloc) (t : Ticket) (h : t.wf)
+theorem C15_embedded_in_bid_roundtrip (t : Ticket) (h : t.wf)
     (k : Pool.C10.Kit) (tier scb : Nat) (u z : Bool)
     (hk : k.WF) (ht : Pool.C10.WFu32 tier) (hs : Pool.C10.WFu64 scb) :
     ∃ blob, serializeTicket t = .ok blob ∧
       Pool.C10.loadOrder k.nonce (Pool.C10.storeOrder (.bid k tier scb (some blob) u z))
         = .ok (.bid k tier scb (some blob) u z) [] ∧
-      deserializeTicket cfg blob = .ok t := by
-  obtain ⟨hser, hdes⟩ := ticket_roundtrip cfg hm t h
+      deserializeTicket (repoCfg Pool.C10.maxAlloc) blob = .ok t := by
+  have hm : 1000 ≤ (repoCfg Pool.C10.maxAlloc).maxAlloc := by
+    simp [repoCfg, Pool.C10.maxAlloc]
+  obtain ⟨hser, hdes⟩ := ticket_roundtrip (repoCfg Pool.C10.maxAlloc) hm t h
   refine ⟨_, hser, ?_, hdes⟩
-  have hlen := ticket_enc_length cfg t h hm
-  have hwf : (Pool.C10.Order.bid k tier scb (some (encAligned (ticketRecs cfg) (ticketVals t))) u z).WF := by
+  have hlen := ticket_enc_length (repoCfg Pool.C10.maxAlloc) t h hm
+  have hwf : (Pool.C10.Order.bid k tier scb
+      (some (encAligned (ticketRecs (repoCfg Pool.C10.maxAlloc)) (ticketVals t))) u z).WF := by
     refine ⟨hk, ht, hs, ?_⟩
-    show (encAligned (ticketRecs cfg) (ticketVals t)).length < 2 ^ 48
-    omega
+    refine ⟨by omega, ?_⟩
+    -- the blob is canonical: it decodes to `t`, and `t` serialises to the blob again
+    simp [Pool.C10.ticketCanonical, Pool.C10.readTicket, hdes, hser]
   exact Pool.C10.order_roundtrip _ hwf
 
 /-! ## the property in full -/
